@@ -5,7 +5,7 @@ CONSTANTS
   Fresh = 424242
   NSet = {0, 1, 2, 3, 4, 5, 6}
   MaxN = 7
-  Salts = {0, 1, 2, 3}
+  Salts = {0, 2}
   Emit = TRUE
 INVARIANTS WellFormed DistLaw CompLaw DecoupleLaw SingleLaw RedLaw PiInjective IdInvariant IdProjects IdSeparates IdExists Vector
 CHECK_DEADLOCK FALSE
